@@ -40,13 +40,25 @@ def verus_cmd(path, rlimit):
             "--output-json", "--time", "--rlimit", str(rlimit)]
 
 
-def run_verus(path, rlimit=30, timeout=600):
+def run_verus(path, rlimit=30, timeout=300):
     t0 = time.time()
+    import signal
+    proc = subprocess.Popen(verus_cmd(path, rlimit), stdout=subprocess.PIPE, stderr=subprocess.PIPE, text=True,
+                            cwd=os.path.dirname(path), start_new_session=True)
     try:
-        p = subprocess.run(verus_cmd(path, rlimit), capture_output=True, text=True,
-                           timeout=timeout, cwd=os.path.dirname(path))
+        out, err = proc.communicate(timeout=timeout)
     except subprocess.TimeoutExpired:
+        try:
+            os.killpg(proc.pid, signal.SIGKILL)
+        except Exception:
+            pass
+        proc.communicate()
         return {"crash": "verus timed out after %ds" % timeout, "wall_s": time.time() - t0}
+
+    class _P:
+        pass
+    p = _P()
+    p.returncode, p.stdout, p.stderr = proc.returncode, out, err
     wall = time.time() - t0
     res = {"rc": p.returncode, "wall_s": wall, "diags": [], "out": None}
     try:
